@@ -234,6 +234,7 @@ SET_ITER_OK = {
     ("assignScratchSlotsToSubroutines", "for:collectScratchSlots(subroutineBlocks)[0] | set().union(*collectScratchSlots(subroutineBlocks)[1].values())"): "the body only raises on duplicate requested ids / fills a set; no output order depends on it",
     ("graph_search", "list:graph[start]"): "seeds a reachability search whose result is a boolean",
     ("graph_search", "list:graph[stack.pop()]"): "same search",
+    ("TealBlock.MatchScratchSlotReferences", "DictComp:{slot: slot for slot in set(actual) & set(expected)}"): "builds an identity mapping that is only queried by key; the helper answers a boolean and is used by the test-only equality context",
 }
 
 
@@ -288,7 +289,9 @@ def _is_set_expr(e, names, dict_of_sets) -> bool:
         if fn == "cast" and len(e.args) == 2:
             return _is_set_expr(e.args[1], names, dict_of_sets)
     if isinstance(e, ast.BinOp) and isinstance(e.op, (ast.BitAnd, ast.BitOr, ast.Sub, ast.BitXor)):
-        return _is_set_expr(e.left, names, dict_of_sets) or _is_set_expr(e.right, names, dict_of_sets)
+        # set algebra on dict views (d.keys() - s, d.items() & t) yields a set as well
+        view = lambda x: isinstance(x, ast.Call) and isinstance(x.func, ast.Attribute) and x.func.attr in ("keys", "items") and not x.args
+        return _is_set_expr(e.left, names, dict_of_sets) or _is_set_expr(e.right, names, dict_of_sets) or view(e.left) or view(e.right)
     if isinstance(e, ast.Subscript) and isinstance(e.value, ast.Name) and e.value.id in dict_of_sets:
         return True
     return False
@@ -298,7 +301,7 @@ def r11_4_hash_order(ctx):
     ctx.rule("R11.4", "no hash-order leak: on the compile path a set is never iterated, listed or popped in an order-sensitive way unless wrapped in sorted(); ScratchSlot hashes by identity, so set order varies between processes")
     n = 0
     for f in ctx.model.iter_funcs():
-        if not (f.module.name.startswith("pyteal.compiler") or f.module.name.startswith("pyteal.ir")) or f.module.name.startswith("pyteal.compiler.sourcemap"):
+        if not (f.module.name.startswith("pyteal.compiler") or f.module.name.startswith("pyteal.ir") or f.module.name.startswith("pyteal.ast")) or f.module.name.startswith("pyteal.compiler.sourcemap") or f.module.name.endswith("_test"):
             continue
         names, dos = _set_typed_names(f)
         for node in walk_local(f.node):
@@ -310,7 +313,7 @@ def r11_4_hash_order(ctx):
                 expr, text = node.args[0], u(node)
             elif isinstance(node, ast.Call) and isinstance(node.func, ast.Attribute) and node.func.attr == "pop" and _is_set_expr(node.func.value, names, dos):
                 expr, text = node.func.value, u(node)
-            elif isinstance(node, (ast.ListComp, ast.GeneratorExp)) and any(_is_set_expr(g.iter, names, dos) for g in node.generators):
+            elif isinstance(node, (ast.ListComp, ast.GeneratorExp, ast.DictComp)) and any(_is_set_expr(g.iter, names, dos) for g in node.generators):
                 parent = getattr(node, "parent", None)
                 if isinstance(parent, ast.Call) and u(parent.func) in ("sorted", "set", "any", "all", "sum", "len", "frozenset", "min", "max"):
                     continue
